@@ -23,9 +23,9 @@ MANIFEST = dict(
          "counted repeats denotes exactly e{n,m} for all n <= m (range_table, range_concat); forward-from-the-atom + exhaustive-backward-from-the-atom equals a whole match "
          "with atoms inside groups, alternation branches and + bodies (decompose); everything the VM model reports (callback lengths, *matches, also in the scan mode of "
          "`matches`) comes from a reachable fiber at RE_OPCODE_MATCH (vm_reports_reachable, any bytecode); and on the code of the emit model the VM is SOUND for every expression "
-         "built from literals, ., \\w\\W\\s\\S\\d\\D, ^ $ \\b \\B, .{n,m}, concatenation, alternation, * and + (greedy or lazy), bracket classes, byte mode, forward code, with "
+         "built from literals, ., \\w\\W\\s\\S\\d\\D, ^ $ \\b \\B, .{n,m}, concatenation, alternation, *, + and ? (greedy or lazy), bracket classes, byte mode, forward code, with "
          "or without the scan mode (vm_sound_partial; matches_sound_partial: a true `matches` verdict implies a matching substring). "
-         "NOT proved: counted repeats e{n,m} of a non-dot body inside the VM proof (counter stack), wide mode, backward code, VM completeness with "
+         "NOT proved: counted repeats e{n,m} of a non-dot body other than e? inside the VM proof (counter stack), wide mode, backward code, VM completeness with "
          "epsilon-loops, atom extraction, Aho-Corasick. That gap is covered by SAMPLING on "
          "every run: generated regexes (<= 12 nodes, all-greedy / all-lazy, anchors, word boundaries, classes, /i /s, nocase ascii wide fullword, atoms forced into groups, "
          "branches and repeats) x buffers (< 1024 bytes) through the real engine vs. the compiled Lean specification (complete match lists, `matches` verdicts through literal "
@@ -332,6 +332,11 @@ def lit_text(b):
 
 def gen_matches_case(r, cid):
     alts, greedy = gen_regex(r)
+    if r.random() < 0.12:
+        # `(e)*$`: when the operand does not end with an instance of e the only match is the empty one at the very end
+        w = [[("rep", ("grp", alts), "*", 0, None), ("eol",)]]
+        if not zero_width_loop(rc.ast_text(rc.norm(alts_ast(w, greedy)))):
+            alts = w
     rfl = r.choice(["", "", "i", "s", "is"])
     text = alts_text(alts, not greedy, r)
     ast = rc.norm(alts_ast(alts, greedy))
@@ -447,7 +452,15 @@ CORPUS = [
     ("/(\\B)*?b|./", "", "a", b"-\xe9a", "A(C(*l(B),l62),.)"), ("/(\\B)*b|./", "", "a", b"-\xe9a", "A(C(*g(B),l62),.)"),
     ("/^(a{,2}?){4,4}?/", "", "a", b"Aaaaaaa", "C(^,Rl4,4(Rl0,2(l61)))"),
     ("/(a{0})+b/", "", "a", b"ab", "C(+g(Rg0,0(l61)),l62)"), ("/x(a?b)+c/", "", "a", b"xabbc xbabc"),
+    ("/[0-0]/", "wide fullword", "wf", b"a\x000\x00"), ("/[0-0]/", "wide fullword", "wf", b"a0\x00"), ("/[0-0]x*/", "wide fullword", "wf", b"0\x00a\x00"),
     ("/[^a-c]x/i", "", "ai", b"Ax dx Dx"), ("/a.c/s", "wide", "ws", b"a\0\n\0c\0a\0b\0c\0"), ("/(a*)*b/", "", "a", b"aaab"), ("/(a|)*b/", "", "a", b"aab"),
+]
+
+
+# `matches` regression cases: (regex, regex flags, operand)
+MCORPUS = [
+    ("x*$", "", b"abc"), ("$", "", b"abc"), ("\\b$", "", b"ab"), ("(a|b)*$", "", b"abc"), ("^$", "", b"a"), ("c$", "", b"abc"), ("x(a?b)+c", "", b"-xbc"),
+    ("(a{0})+b", "", b"ab"), ("a*?$", "s", b"b\n"),
 ]
 
 
@@ -471,6 +484,11 @@ def run(tier, replay=None):
         rule = "rule r { strings: $a = %s %s condition: #a >= 0 }" % (rx, mods)
         cases.append("%s src=%s re=%s fl=%s buf=%s code=1 fx=1" % (cid, hx(rule), ent[4] if len(ent) > 4 else "?", fl, hx(buf)))
         metas[cid] = dict(kind="string", regex=rx, mods=mods, corpus=True)
+    for i, (rx, rfl, opnd) in enumerate(MCORPUS):
+        cid = "km%d" % i
+        rule = "rule r { strings: $t = /%s/%s condition: \"%s\" matches /%s/%s or #t < 0 }" % (rx, rfl, lit_text(opnd), rx, rfl)
+        cases.append("%s src=%s re=? fl=%s mstr=%s buf=00" % (cid, hx(rule), rfl or "-", hx(opnd)))
+        metas[cid] = dict(kind="matches", regex=rx, reflags=rfl, operand=hx(opnd), corpus=True)
     for i in range(ns):
         line, meta = gen_string_case(r, "s%d" % i)
         cases.append(line); metas[line.split(" ", 1)[0]] = meta
